@@ -1,2 +1,155 @@
+(* Property C14: only owners, governance and the validator itself can change what is theirs.
+   Theorems about Model/Auth.v (the model the correspondence driver harness/c14 runs); proofs are in
+   Proofs/AuthProofs.v.  [step s o] = (result class, state after): ValidateBasic, then the handler, and a
+   rejected message (class <> 0) returns the old state.  Messages come from ARBITRARY senders, in
+   arbitrary sequences ([run_ops]); environment steps (launch / deletion in BeginBlock) are ops too.
+   Accounts are address strings abstracted to integers: gov = the keeper authority,
+   oper_acct v = the account with validator v's operator bytes. *)
 From Coq Require Import ZArith List Bool.
 From ICS Require Import Base.Tree Model.Auth Proofs.AuthProofs.
+Import ListNotations.
+Open Scope Z_scope.
+
+(* ---- "Rejected messages leave the state unchanged" (every class <> 0, every message type) ---- *)
+Theorem C14_reject_unchanged : forall s o, fst (step s o) <> 0 -> snd (step s o) = s.
+Proof. exact step_reject_unchanged. Qed.
+
+(* ---- "Only a consumer's current owner can update or remove it":
+   owner_msg o = Some (c, sender) iff o is MsgUpdateConsumer / MsgRemoveConsumer for c sent by sender ---- *)
+Theorem C14_owner_only : forall s o c sender,
+  owner_msg o = Some (c, sender) -> owner_of s c <> Some sender ->
+  fst (step s o) <> 0 /\ snd (step s o) = s.
+Proof. exact owner_only. Qed.
+
+Theorem C14_owner_only_success : forall s o c sender,
+  owner_msg o = Some (c, sender) -> fst (step s o) = 0 -> owner_of s c = Some sender.
+Proof. exact owner_only_success. Qed.
+
+(* ---- "ownership changes only by the owner's explicit transfer": over ANY op (all message types, all
+   senders, environment steps) a consumer keeps existing, and its owner differs afterwards only if the op is
+   a successful MsgUpdateConsumer sent by the previous owner a that names the new owner a' ---- *)
+Theorem C14_owner_changes_only_by_transfer : forall s o c a,
+  owner_of s c = Some a ->
+  exists a', owner_of (snd (step s o)) c = Some a' /\
+    (a' <> a -> fst (step s o) = 0 /\ exists tn ini, o = Update c a (NewOwner a') tn ini).
+Proof. exact owner_changes_only_by_transfer. Qed.
+
+(* over sequences: without a transfer message for c in the sequence the owner of c is the same at the end *)
+Theorem C14_owner_stable : forall ops s c a,
+  owner_of s c = Some a ->
+  (forall sender a' tn ini, ~ In (Update c sender (NewOwner a') tn ini) ops) ->
+  owner_of (run_ops s ops) c = Some a.
+Proof. exact owner_stable. Qed.
+
+(* the same for Top_N: it changes only by a successful MsgUpdateConsumer of the current owner carrying it *)
+Theorem C14_topn_changes_only_by_owner : forall s o c n,
+  topn_of s c = Some n ->
+  exists n', topn_of (snd (step s o)) c = Some n' /\
+    (n' <> n -> fst (step s o) = 0 /\
+       exists a no ini, o = Update c a no (Some n') ini /\ owner_of s c = Some a).
+Proof. exact topn_changes_only_by_owner. Qed.
+
+(* ---- "a consumer has a Top-N value (necessarily within 50..100) only while it is owned by the governance
+   authority": invariant of every reachable state, for every consumer in every phase; preserved by every
+   single op, including one MsgUpdateConsumer that changes owner and Top_N together (either direction) ---- *)
+Theorem C14_topn_implies_gov_step : forall s o, topn_inv s -> topn_inv (snd (step s o)).
+Proof. exact topn_inv_step. Qed.
+
+Theorem C14_topn_implies_gov : forall nvals minrate params cparams ops c cr,
+  get_cons (run_ops (init_state nvals minrate params cparams) ops) c = Some cr ->
+  c_topn cr <> 0 -> c_owner cr = gov /\ 50 <= c_topn cr <= 100.
+Proof. intros nv mr p cp ops c cr. apply topn_inv_get. apply topn_inv_reachable. Qed.
+
+(* ---- "permissionless users create ... opt-in consumers only": MsgCreateConsumer with Top_N <> 0 is
+   rejected (in ValidateBasic); a successful create appends one consumer owned by the submitter, Top_N = 0,
+   no validator records, phase registered or initialized ---- *)
+Theorem C14_create_optin_only : forall s sender tn ini,
+  (forall n, tn = Some n -> n <> 0 -> fst (step s (Create sender tn ini)) = E_VB) /\
+  (fst (step s (Create sender tn ini)) = 0 ->
+   exists cr, s_cons (snd (step s (Create sender tn ini))) = s_cons s ++ [cr] /\
+     c_owner cr = sender /\ c_topn cr = 0 /\ c_opted cr = [] /\ c_keys cr = [] /\ c_comm cr = [] /\
+     (c_phase cr = 1 \/ c_phase cr = 2)).
+Proof. exact create_optin_only. Qed.
+
+(* ---- "Provider parameters and the global reward-denom list change only by the governance authority"
+   (and the consumer chain's parameters): if any of them differs after an op, the op is a successful
+   MsgUpdateParams / MsgChangeRewardDenoms / consumer MsgUpdateParams whose authority field is gov ---- *)
+Theorem C14_gov_only : forall s o,
+  (s_params (snd (step s o)) <> s_params s \/ s_denoms (snd (step s o)) <> s_denoms s \/
+   s_cparams (snd (step s o)) <> s_cparams s) ->
+  fst (step s o) = 0 /\ authority_of o = Some gov.
+Proof. exact gov_only. Qed.
+
+Theorem C14_gov_only_seq : forall ops s,
+  (forall o, In o ops -> authority_of o <> Some gov) ->
+  s_params (run_ops s ops) = s_params s /\ s_denoms (run_ops s ops) = s_denoms s /\
+  s_cparams (run_ops s ops) = s_cparams s.
+Proof. exact globals_stable. Qed.
+
+(* ---- "opt-in, opt-out, key-assignment and commission messages affect only the validator whose operator
+   signed them": for such a message naming (consumer c, validator v, signer sg):
+   signer <> operator account -> rejected by ValidateBasic; success -> signer = operator account of a registered
+   validator; params/denoms/number of consumers and every other consumer are untouched; on consumer c
+   phase/owner/Top_N and every record keyed by another validator v' <> v (opted-in flag, assigned key,
+   commission, consumer-address index entries pointing to v') are untouched ([vframe]).
+   [key_inv]: the consumer-address index points back to the validator that assigned the key; it holds in
+   every reachable state (C14_key_inv). ---- *)
+Theorem C14_validator_only : forall s o c v sg,
+  validator_msg o = Some (c, v, sg) ->
+  (sg <> oper_acct v -> step s o = (E_VB, s)) /\
+  (fst (step s o) = 0 -> sg = oper_acct v /\ 0 <= v < s_nvals s) /\
+  s_params (snd (step s o)) = s_params s /\ s_denoms (snd (step s o)) = s_denoms s /\
+  s_cparams (snd (step s o)) = s_cparams s /\ length (s_cons (snd (step s o))) = length (s_cons s) /\
+  (forall c', c' <> c -> get_cons (snd (step s o)) c' = get_cons s c') /\
+  (key_inv s -> forall cr, get_cons s c = Some cr ->
+     exists cr', get_cons (snd (step s o)) c = Some cr' /\ vframe v cr cr').
+Proof. exact validator_only. Qed.
+
+Theorem C14_key_inv : forall nvals minrate params cparams ops,
+  key_inv (run_ops (init_state nvals minrate params cparams) ops).
+Proof. exact key_inv_reachable. Qed.
+
+Theorem C14_key_inv_step : forall s o, key_inv s -> key_inv (snd (step s o)).
+Proof. exact key_inv_step. Qed.
+
+(* ---- non-vacuity ---- *)
+Definition ex_init : state := init_state 3 5 600 1000.
+(* user 1 creates consumer 0, hands it to gov, gov makes it Top N = 60 *)
+Definition ex_topn : list op :=
+  [Create 1 None NoInit; Update 0 1 (NewOwner gov) None NoInit; Update 0 gov NoOwner (Some 60) NoInit].
+
+Example C14_ex_topn_reachable :
+  owner_of (run_ops ex_init ex_topn) 0 = Some gov /\ topn_of (run_ops ex_init ex_topn) 0 = Some 60.
+Proof. vm_compute. split; reflexivity. Qed.
+
+(* single messages that change owner and Top_N together, on the gov-owned Top-N consumer:
+   gov -> user 2 with Top_N 0 at once is accepted; gov -> user 2 keeping / setting Top_N is refused;
+   a bare owner change is refused; and on a user-owned consumer: user -> gov with Top_N 60 at once is refused
+   (the pre-check reads the OLD owner), user setting Top_N is refused *)
+Example C14_ex_both_directions :
+  let s := run_ops ex_init ex_topn in
+  let s2 := snd (step s (Update 0 gov (NewOwner 2) (Some 0) NoInit)) in
+  fst (step s (Update 0 gov (NewOwner 2) (Some 0) NoInit)) = 0 /\
+  owner_of s2 0 = Some 2 /\ topn_of s2 0 = Some 0 /\
+  fst (step s (Update 0 gov (NewOwner 2) (Some 60) NoInit)) = E_TOPN /\
+  fst (step s (Update 0 gov (NewOwner 2) None NoInit)) = E_TOPN /\
+  fst (step s (Update 0 gov NoOwner (Some 49) NoInit)) = E_VB /\
+  fst (step s2 (Update 0 2 (NewOwner gov) (Some 60) NoInit)) = E_TOPN /\
+  fst (step s2 (Update 0 2 NoOwner (Some 60) NoInit)) = E_TOPN /\
+  fst (step s2 (Update 0 gov NoOwner (Some 60) NoInit)) = E_UNAUTH /\
+  fst (step s2 (Remove 0 1)) = E_UNAUTH.
+Proof. vm_compute. repeat split; reflexivity. Qed.
+
+(* validators: v0 opts in with key 7; v1 cannot take key 7 nor v0's provider key; a foreign signer is
+   refused by ValidateBasic; v1's own records are those of before *)
+Example C14_ex_validators :
+  let s := snd (step (run_ops ex_init ex_topn) (OptIn 0 0 (oper_acct 0) 7)) in
+  (exists cr, get_cons s 0 = Some cr /\ c_opted cr = [0] /\ c_keys cr = [(0, 7)] /\ c_used cr = [(7, 0)]) /\
+  fst (step s (AssignKey 0 1 (oper_acct 1) 7)) = E_OTHER /\
+  fst (step s (AssignKey 0 1 (oper_acct 1) 1000)) = E_OTHER /\
+  fst (step s (AssignKey 0 1 (oper_acct 0) 8)) = E_VB /\
+  fst (step s (SetCommission 0 1 (oper_acct 1) 3)) = E_OTHER /\
+  fst (step s (SetCommission 0 1 (oper_acct 1) 10)) = 0 /\
+  fst (step s (UpdateParams 1 700)) = E_UNAUTH /\
+  fst (step s (ChangeDenoms gov [1; 2] [])) = 0.
+Proof. vm_compute. repeat split; try reflexivity. eexists; repeat split; reflexivity. Qed.
